@@ -1,6 +1,11 @@
 package props
 
 import (
+	"context"
+	"sync"
+	"sync/atomic"
+	"time"
+
 	"verif/internal/harness"
 )
 
@@ -34,6 +39,7 @@ func init() {
 		{"compaction-vs-writers(C07 concurrent)", func(c *harness.Case) { runC07Concurrent(c, inproc[c.Index%2]) }},
 		{"watch-overflow(C05 overflow)", func(c *harness.Case) { runC05Overflow(c, false) }},
 		{"async-retry(C09 faults)", runC19Retry},
+		{"watch-overflow+subscribers-joining-leaving", runC19OverflowChurn},
 	}
 	Registry["C19"] = &Prop{
 		Plan: func(tier string) Plan {
@@ -67,4 +73,82 @@ func init() {
 func runC19Retry(c *harness.Case) {
 	c.Index = c.Index / len(c19Items) * c09Chunks // map onto a C09 history, chunk 0
 	runC09(c)
+}
+
+// runC19OverflowChurn: one watcher never reads until the hub drops it as a slow consumer, while other
+// clients keep subscribing and cancelling watches and a healthy watcher keeps reading.
+func runC19OverflowChurn(c *harness.Case) {
+	rg := newWatchRig(c, "memkv", 64, nil, true)
+	if rg == nil {
+		return
+	}
+	defer rg.close()
+	P := harness.Prefix + "/p/"
+	ctx, cancel := context.WithCancel(context.Background())
+	defer cancel()
+	stalled, err := rg.n.B.Watch(ctx, P, 0)
+	if err != nil {
+		c.Inconclusive("watch refused")
+		return
+	}
+	healthy, err := rg.n.B.Watch(ctx, P, 0)
+	if err != nil {
+		c.Inconclusive("watch refused")
+		return
+	}
+	var delivered int64
+	go func() {
+		for evs := range healthy {
+			atomic.AddInt64(&delivered, int64(len(evs)))
+		}
+	}()
+	var stop int32
+	var churns int64
+	var wg sync.WaitGroup
+	for g := 0; g < 2; g++ {
+		wg.Add(1)
+		go func() {
+			defer wg.Done()
+			for atomic.LoadInt32(&stop) == 0 {
+				wctx, wcancel := context.WithCancel(ctx)
+				if ch, err := rg.n.B.Watch(wctx, P, 0); err == nil {
+					wcancel()
+					for range ch {
+					}
+				} else {
+					wcancel()
+				}
+				atomic.AddInt64(&churns, 1)
+			}
+		}()
+	}
+	key := harness.Prefix + "/p/k"
+	out := rg.do(harness.SeqOp{Kind: "create", Key: key, Val: []byte("v0")}, true)
+	last := out.Rev
+	for i := 1; i < 10100+400; i++ {
+		o := rg.do(harness.SeqOp{Kind: "update", Key: key, Val: []byte("v"), Exp: last}, true)
+		if o.Err != "" || !o.Succeeded {
+			break
+		}
+		last = o.Rev
+	}
+	atomic.StoreInt32(&stop, 1)
+	wg.Wait()
+	drained := 0
+	tm := time.After(30 * time.Second)
+loop:
+	for {
+		select {
+		case _, ok := <-stalled:
+			if !ok {
+				break loop
+			}
+			drained++
+		case <-tm:
+			break loop
+		}
+	}
+	c.Stat("subscribe_cancel_cycles_during_overflow", atomic.LoadInt64(&churns))
+	c.Stat("batches_drained_from_dropped_watcher", int64(drained))
+	c.Stat("events_delivered_to_healthy_watcher", atomic.LoadInt64(&delivered))
 }
